@@ -5,7 +5,7 @@ A stratified run is still one simulated run of the same engine: a JSON op list
 executed on real PyFVTool objects under the same invariants, shrinkable and
 replayable like any other.  What differs is where the op list comes from: the
 run index is decoded (mixed radix) into one cell of a small product space --
-e.g. (grid class) x (a history of <= k letters over a 27-letter edit / solve /
+e.g. (grid class) x (a history of <= k letters over a 28-letter edit / solve /
 fault alphabet) -- and everything the stratum leaves open (mesh spacing, which
 side is edited, coefficient values) is drawn from a PRNG seeded by the index.
 Random search visits short histories and operator x operand matrices only by
@@ -129,7 +129,7 @@ HIST_LETTERS = (
     "val_assign", "val_slice", "update_value", "apply_A", "apply_B", "solve_A",
     "solve_B", "explicit_A", "explicit_B", "copy_A", "newvar_shared",
     "solve_A_solver_raises", "solve_A_solver_scribbles", "solve_B_unknown_term",
-    "operator_A", "untracked_then_remedy",
+    "operator_A", "untracked_then_remedy", "utility_fails_half_way",
 )
 NL = len(HIST_LETTERS)
 
@@ -267,6 +267,10 @@ def _hist_letter(st, name):
         return _solve_ops(st, st.A, mode="ext_scribble_raise")
     if name == "solve_B_unknown_term":
         return _solve_ops(st, st.B, bad="ndim3")
+    if name == "utility_fails_half_way":
+        # documented ValueError after a and b were already overwritten
+        return [{"k": "bc_util", "a": dict(tgt, side=side, fn=rng.choice(("fixedValue", "fixedGradient")),
+                                           wrong_shape=True)}]
     if name == "untracked_then_remedy":
         coef = rng.choice(("a", "b", "c"))
         return [{"k": "bc_untracked", "a": dict(tgt, side=side, coef=coef,
